@@ -132,8 +132,7 @@ CHECKS = {
                 "after a session end an observer must have been told Dispose() or hold nothing. Replayed with IPv4 and IPv6 prefix embeddings.",
         "note": "Trusted: TLC, the verif-tagged constructor, the projection. Left open on purpose: where BOTH views of one session hold the same "
                 "(prefix, path id) the table may keep either or both (the statement does not say how the views share a table); whether an "
-                "empty VRF object exists; LOCAL_PREF of routes from eBGP sessions. One UPDATE carries one NLRI (several NLRI per UPDATE are "
-                "C20). One defect repaired (add-path receive never enabled), one known finding (the two policy views share one Adj-RIB-In: a "
+                "empty VRF object exists; LOCAL_PREF of routes from eBGP sessions. One UPDATE carries one or two NLRI.  One defect repaired (add-path receive never enabled), one known finding (the two policy views share one Adj-RIB-In: a "
                 "withdrawal in one view removes the route of the other).",
         "technique": "TLA+ spec BMP + TLC exhaustive check; behaviour replay (complete transition graphs + simulation) against a real BMP Router "
                      "served over net.Pipe, Loc-RIB dumps and recording observers compared after every message",
